@@ -1051,32 +1051,7 @@ class BooleanExpression(Expression):
         self.expression = expression
 
     def __str__(self) -> str:
-        def _str(expression: Expression, parent_precedence: int) -> str:
-            if isinstance(expression, LogicalAndExpression):
-                precedence = PRECEDENCE_LOGICAL_AND
-                op = "and"
-                left = _str(expression.left, precedence)
-                right = _str(expression.right, precedence)
-            elif isinstance(expression, LogicalOrExpression):
-                precedence = PRECEDENCE_LOGICAL_OR
-                op = "or"
-                left = _str(expression.left, precedence)
-                right = _str(expression.right, precedence)
-            elif isinstance(expression, LogicalNotExpression):
-                operand_str = _str(expression.expression, PRECEDENCE_PREFIX)
-                expr = f"not {operand_str}"
-                if parent_precedence > PRECEDENCE_PREFIX:
-                    return f"({expr})"
-                return expr
-            else:
-                return str(expression)
-
-            expr = f"{left} {op} {right}"
-            if precedence < parent_precedence:
-                return f"({expr})"
-            return expr
-
-        return _str(self.expression, 0)
+        return _boolean_str(self.expression)
 
     def evaluate(self, context: RenderContext) -> object:
         return is_truthy(self.expression.evaluate(context))
@@ -1295,7 +1270,7 @@ class LogicalNotExpression(Expression):
         self.expression = expression
 
     def __str__(self) -> str:
-        return f"not {self.expression}"
+        return _boolean_str(self)
 
     def evaluate(self, context: RenderContext) -> object:
         return not is_truthy(self.expression.evaluate(context))
@@ -1321,7 +1296,7 @@ class LogicalAndExpression(Expression):
         self.right = right
 
     def __str__(self) -> str:
-        return f"{self.left} and {self.right}"
+        return _boolean_str(self)
 
     def evaluate(self, context: RenderContext) -> object:
         return is_truthy(self.left.evaluate(context)) and is_truthy(
@@ -1346,7 +1321,7 @@ class LogicalOrExpression(Expression):
         self.right = right
 
     def __str__(self) -> str:
-        return f"{self.left} or {self.right}"
+        return _boolean_str(self)
 
     def evaluate(self, context: RenderContext) -> object:
         return is_truthy(self.left.evaluate(context)) or is_truthy(
@@ -1371,7 +1346,7 @@ class EqExpression(Expression):
         self.right = right
 
     def __str__(self) -> str:
-        return f"{self.left} == {self.right}"
+        return _boolean_str(self)
 
     def evaluate(self, context: RenderContext) -> object:
         return _eq(self.left.evaluate(context), self.right.evaluate(context))
@@ -1395,7 +1370,7 @@ class NeExpression(Expression):
         self.right = right
 
     def __str__(self) -> str:
-        return f"{self.left} != {self.right}"
+        return _boolean_str(self)
 
     def evaluate(self, context: RenderContext) -> object:
         return not _eq(self.left.evaluate(context), self.right.evaluate(context))
@@ -1419,7 +1394,7 @@ class LeExpression(Expression):
         self.right = right
 
     def __str__(self) -> str:
-        return f"{self.left} <= {self.right}"
+        return _boolean_str(self)
 
     def evaluate(self, context: RenderContext) -> object:
         left = self.left.evaluate(context)
@@ -1444,7 +1419,7 @@ class GeExpression(Expression):
         self.right = right
 
     def __str__(self) -> str:
-        return f"{self.left} >= {self.right}"
+        return _boolean_str(self)
 
     def evaluate(self, context: RenderContext) -> object:
         left = self.left.evaluate(context)
@@ -1469,7 +1444,7 @@ class LtExpression(Expression):
         self.right = right
 
     def __str__(self) -> str:
-        return f"{self.left} < {self.right}"
+        return _boolean_str(self)
 
     def evaluate(self, context: RenderContext) -> object:
         return _lt(
@@ -1496,7 +1471,7 @@ class GtExpression(Expression):
         self.right = right
 
     def __str__(self) -> str:
-        return f"{self.left} > {self.right}"
+        return _boolean_str(self)
 
     def evaluate(self, context: RenderContext) -> object:
         return _lt(
@@ -1523,7 +1498,7 @@ class ContainsExpression(Expression):
         self.right = right
 
     def __str__(self) -> str:
-        return f"{self.left} contains {self.right}"
+        return _boolean_str(self)
 
     def evaluate(self, context: RenderContext) -> object:
         return _contains(
@@ -1550,7 +1525,7 @@ class InExpression(Expression):
         self.right = right
 
     def __str__(self) -> str:
-        return f"{self.left} in {self.right}"
+        return _boolean_str(self)
 
     def evaluate(self, context: RenderContext) -> object:
         return _contains(
@@ -1566,6 +1541,47 @@ class InExpression(Expression):
 
     def children(self) -> list[Expression]:
         return [self.left, self.right]
+
+
+_INFIX_OPERATORS: dict[type[Expression], tuple[str, int]] = {
+    LogicalAndExpression: ("and", PRECEDENCE_LOGICAL_AND),
+    LogicalOrExpression: ("or", PRECEDENCE_LOGICAL_OR),
+    EqExpression: ("==", PRECEDENCE_RELATIONAL),
+    NeExpression: ("!=", PRECEDENCE_RELATIONAL),
+    LeExpression: ("<=", PRECEDENCE_RELATIONAL),
+    GeExpression: (">=", PRECEDENCE_RELATIONAL),
+    LtExpression: ("<", PRECEDENCE_RELATIONAL),
+    GtExpression: (">", PRECEDENCE_RELATIONAL),
+    ContainsExpression: ("contains", PRECEDENCE_MEMBERSHIP),
+    InExpression: ("in", PRECEDENCE_MEMBERSHIP),
+}
+
+
+def _boolean_str(expression: Expression, parent_precedence: int = 0) -> str:
+    """Serialize a Boolean expression, adding the parentheses needed to parse it back.
+
+    The parser applies `not` to everything that follows it and gives relational and
+    membership operators no associativity of their own, so a `not` with a parent, and
+    any compound operand of a relational or membership operator, is parenthesized.
+    """
+    if isinstance(expression, LogicalNotExpression):
+        expr = f"not {_boolean_str(expression.expression, PRECEDENCE_PREFIX)}"
+        return f"({expr})" if parent_precedence > 0 else expr
+
+    operator = _INFIX_OPERATORS.get(type(expression))
+    if operator is None:
+        return str(expression)
+
+    op, precedence = operator
+    left = _boolean_str(expression.left, precedence)  # type: ignore[attr-defined]
+    right = _boolean_str(expression.right, precedence)  # type: ignore[attr-defined]
+    expr = f"{left} {op} {right}"
+
+    if precedence < parent_precedence or (
+        parent_precedence >= PRECEDENCE_RELATIONAL and precedence >= PRECEDENCE_RELATIONAL
+    ):
+        return f"({expr})"
+    return expr
 
 
 class LoopExpression(Expression):
